@@ -109,6 +109,8 @@ def one(ctx, cfg, n, seq, clock=None, do_model=True, name="minimize", parts=None
     parts = parts or [b"%d\n" % i for i in range(n)]
     f = (b"", parts, list(red) if red is not None else [True] * n, b"")
     tc = strat.testcase_from_fields("line", f)
+    if name == "minimize-collapse-brace":
+        tc.filename = str(loaders.scratch() / "c14-collapse.txt")
     run = strat.run_real(name, cfg, tc, lambda k, c: seq[k % len(seq)], clock_times=clock, max_tests=20000)
     case = dict(strategy=name, cfg=cfg, n=n, verdicts="".join("1" if v else "0" for v in run.verdicts[:150]), clock=(clock or [])[:40])
     if do_model and name in strat.MODELLED and not cfg.get("move"):
@@ -119,6 +121,13 @@ def one(ctx, cfg, n, seq, clock=None, do_model=True, name="minimize", parts=None
         ctx.fail("internal-error", f"{name}: {run.error}", case)
     if name == "minimize" and clock is None:
         check_blocks(ctx, cfg, f, run, case)
+    if name == "minimize-collapse-brace" and clock is None and not run.error:
+        # the same sweep loop with a brace-collapsing step between the sweeps: the block clauses hold for its deletions too
+        # (the atom count may only drop when the collapsed text is re-split, so the effective maximum of the start still bounds them)
+        import copy
+        r2 = copy.copy(run)
+        r2.atts = [a for a in run.atts if a["tag"] == 0]
+        check_blocks(ctx, cfg, f, r2, case)
     if clock is not None:
         if run.late_tests:
             ctx.fail("test-after-deadline", f"{name}: {run.late_tests} test(s) started after the time limit had passed", case)
@@ -151,6 +160,21 @@ def grid(ctx, thorough, do_model=True):
         for rep in ("always", "last", "never"):
             seq = [rng.random() < 0.5 for _ in range(397)]
             one(ctx, dict(rep=rep), n, seq, do_model=do_model)
+
+
+def collapse_blocks(ctx, thorough, do_model=True):
+    rng = ctx.rng
+    toks = [b"{\n", b"}\n", b"a\n", b"\n", b" \n", b"b{\n", b"x\n", b"y\n"]
+    for n in (4, 8, 9, 16, 17, 32, 33) + ((64,) if thorough else ()):
+        for rep in range(6 if thorough else 3):
+            parts = [rng.choice(toks) for _ in range(n)]
+            # a brace body that can be emptied during a sweep
+            i = rng.randrange(max(1, n - 3))
+            parts[i:i + 3] = [b"f() {\n", b"body\n", b"}\n"][: n - i]
+            for cfg in (dict(), dict(rep="always"), dict(max=4)):
+                p = rng.choice([0.3, 0.6, 0.9])
+                seq = [rng.random() < p for _ in range(397)]
+                one(ctx, cfg, len(parts), seq, do_model=do_model, name="minimize-collapse-brace", parts=parts)
 
 
 def layouts(ctx, thorough, do_model=True):
@@ -255,6 +279,7 @@ def known_finding_cases(ctx):
 
 def search(ctx):
     layouts(ctx, True, do_model=False)
+    collapse_blocks(ctx, True, do_model=False)
     grid(ctx, True, do_model=False)
     deadlines(ctx, True, do_model=False)
 
@@ -264,6 +289,7 @@ def run(ctx) -> int:
     known_finding_cases(ctx)
     grid(ctx, ctx.thorough)
     layouts(ctx, ctx.thorough)
+    collapse_blocks(ctx, ctx.thorough)
     deadlines(ctx, ctx.thorough)
     ctx.exhaustive.append("a clock jump past the limit at every test index (<= 25) of fixed runs of minimize, around, balanced, balanced+move")
     pow2_cases(ctx, ctx.thorough)
